@@ -765,8 +765,39 @@ def gen_history(rng, n_ops):
     return ops
 
 
+class Boom(Exception):
+    pass
+
+
+class Halt(BaseException):
+    """A BaseException subclass (like SystemExit / GeneratorExit / CancelledError) raised by a callback."""
+
+
+def raise_for(cb):
+    """What a raising callback raises: plain exceptions and BaseException subclasses."""
+    if cb % 4 == 3:
+        raise Halt('callback %d' % cb)
+    if cb % 4 == 2:
+        raise SystemExit('callback %d' % cb)
+    raise Boom('callback %d raises' % cb)
+
+
+def canon_inv(line):
+    """'inv=2:1,0:3 log=1 [escaped]' with the invoked pairs sorted (the statement fixes no order)."""
+    parts = line.split(' ')
+    if not parts[0].startswith('inv='):
+        return line
+    body = parts[0][4:]
+    if body != '.':
+        pairs = sorted(tuple(int(x) for x in p.split(':')) for p in body.split(','))
+        body = ','.join('%d:%d' % p for p in pairs)
+    return ' '.join(['inv=' + body] + parts[1:])
+
+
 def run_history(ctx, ops, inp_extra=None):
-    """Run one router history on the real MessageRouter and on the model; oracle on the implementation."""
+    """Run one router history on the real MessageRouter and on the model; oracle on the implementation.
+    The oracle identifies a registration by the order of its addMatch call (tag), never by the id value:
+    the statement does not forbid an implementation from reissuing the id of a removed rule."""
     from txdbus import router
     spy = LogSpy()
     saved = router.log
@@ -774,48 +805,44 @@ def run_history(ctx, ops, inp_extra=None):
     lines = ['reset']
     impl = ['ok']
     inp = {'stream': 'route-histories', 'ops': ops}
-    live = {}          # oracle registry: id -> (kw, cb), from the ids the implementation returned
-    handed_out = []
-    removed = set()
+    reg = {}           # oracle registry: tag -> dict(kw, cb, state 'live'|'removed', id)
+    id_to_tag = {}     # id currently naming a live registration -> its tag
+    ids_seen = []
     try:
         r = router.MessageRouter()
         fired = []
-
-        class Boom(Exception):
-            pass
         raising = set()
 
         def make_cb(cb, tag):
             def f(m):
                 fired.append((tag, cb))
                 if cb in raising:
-                    raise Boom('callback %d raises' % cb)
+                    raise_for(cb)
             return f
-        tags = {}
+        n_tags = 0
         for op in ops:
             if op[0] == 'add':
                 _, cb, kw = op
-                tag = len(tags)
+                tag = n_tags
+                n_tags += 1
                 try:
                     rid = r.addMatch(make_cb(cb, tag), **call_kw(kw))
                     impl.append('id %d' % rid)
-                    tags[tag] = rid
-                    if rid in handed_out:
-                        ctx.violation('rule-id-reused', 'addMatch returned the id %d twice' % rid, inp=inp,
-                                      observed=handed_out + [rid], expected='distinct ids')
-                    handed_out.append(rid)
-                    live[rid] = (kw, cb)
+                    if rid in ids_seen:
+                        ctx.stat('id-reissued')        # model correspondence decides; not a property demand
+                    ids_seen.append(rid)
+                    reg[tag] = {'kw': kw, 'cb': cb, 'state': 'live', 'id': rid}
+                    id_to_tag[rid] = tag
                 except Exception:
-                    tags[tag] = None
                     impl.append('addfailed')
                 lines.append('add %d %s' % (cb, enc_rule(kw)))
             elif op[0] == 'del':
                 try:
                     r.delMatch(op[1])
                     impl.append('ok')
-                    if op[1] in live:
-                        del live[op[1]]
-                        removed.add(op[1])
+                    tag = id_to_tag.pop(op[1], None)
+                    if tag is not None:
+                        reg[tag]['state'] = 'removed'
                 except KeyError:
                     impl.append('keyerror')
                 lines.append('del %d' % op[1])
@@ -832,53 +859,60 @@ def run_history(ctx, ops, inp_extra=None):
                     r.routeMessage(m)
                 except BaseException as e:       # nothing may escape routeMessage
                     escaped = repr(e)
-                inv = [(tags[tag], cb) for tag, cb in fired]
-                impl.append('inv=%s log=%d' % (','.join('%d:%d' % ic for ic in inv) or '.', spy.n - n0)
-                            + (' escaped' if escaped else ''))
+                inv = [(reg[tag]['id'], cb) for tag, cb in fired if tag in reg]
+                impl.append(canon_inv('inv=%s log=%d' % (','.join('%d:%d' % ic for ic in inv) or '.', spy.n - n0)
+                                      + (' escaped' if escaped else '')))
                 lines.append('route %s %s' % (enc_raises(raises), enc_msg(mv)))
                 ctx.impl_trace()
-                # ---- oracle: invoked multiset == live rules that match, each once
-                expected, undecided = [], set()
-                for rid, (kw, cb) in live.items():
-                    v, _ = oracle_matches(kw, mv)
+                if mv['mtype'] != 4:
+                    continue
+                # ---- oracle: invoked multiset == live registrations that match, each once
+                expected, undecided = set(), set()
+                for tag, g in reg.items():
+                    if g['state'] != 'live':
+                        continue
+                    v, _ = oracle_matches(g['kw'], mv)
                     if v is None:
-                        undecided.add(rid)
+                        undecided.add(tag)
                     elif v:
-                        expected.append(rid)
-                got = [rid for rid, _ in inv if rid not in undecided]
-                if mv['mtype'] == 4:
-                    for rid in sorted(set(got)):
-                        if got.count(rid) > 1:
-                            ctx.violation('invoked-twice', 'rule %d invoked %d times for one signal' % (rid, got.count(rid)),
-                                          inp=inp, observed=inv, expected=sorted(expected))
-                    for rid in sorted(set(got)):
-                        if rid in removed or rid not in live:
-                            ctx.violation('removed-rule-invoked', 'rule %d was removed and is invoked again' % rid,
-                                          inp=inp, observed=inv, expected=sorted(expected))
-                    if escaped:
-                        ctx.violation('exception-escapes-routing', 'routeMessage raised %s' % escaped, inp=inp,
-                                      observed=escaped, expected='no exception')
-                    if sorted(set(got)) != sorted(expected):
-                        wrong = sorted(set(got) ^ set(expected))
-                        rid = wrong[0]
-                        kw, cb = live.get(rid, ({}, None))
-                        v, failing = oracle_matches(kw, mv)
-                        key, what = explain(kw, m, mv, rid in got, v, failing)
-                        if rid not in got and raises:
-                            raising.clear()
-                            del fired[:]
-                            try:
-                                r.routeMessage(m)
-                            except BaseException:
-                                pass
-                            if rid in [tags[tag] for tag, _ in fired]:
-                                key, what = ('callback-exception-stops-routing',
-                                             'a raising callback prevented the matching rule %d from being invoked '
-                                             '(it is invoked when no callback raises)' % rid)
-                        ctx.violation(key or 'invoked-set-differs', what or 'invoked set differs', inp=inp,
-                                      observed=sorted(set(got)), expected=sorted(expected))
-                    else:
-                        ctx.stat('history-route:ok')
+                        expected.add(tag)
+                got = [tag for tag, _ in fired if tag not in undecided]
+                if any(cb % 4 >= 2 for cb in raises):
+                    ctx.stat('history-route:base-exception-callback')
+                if len(expected) > 1:
+                    ctx.stat('history-route:several-rules-match')
+                if escaped:
+                    ctx.violation('exception-escapes-routing', 'routeMessage raised %s: an exception of one callback '
+                                  'reaches the caller and the remaining rules are not evaluated' % escaped, inp=inp,
+                                  observed=escaped, expected='no exception')
+                bad = None
+                for tag in sorted(set(got)):
+                    if got.count(tag) > 1:
+                        bad = ('invoked-twice', 'registration #%d invoked %d times for one signal' % (tag, got.count(tag)))
+                    elif reg[tag]['state'] == 'removed':
+                        bad = ('removed-rule-invoked', 'registration #%d (id %d) was removed and is invoked again'
+                               % (tag, reg[tag]['id']))
+                if bad is None and set(got) != expected:
+                    tag = sorted(set(got) ^ expected)[0]
+                    kw = reg[tag]['kw']
+                    v, failing = oracle_matches(kw, mv)
+                    bad = explain(kw, m, mv, tag in got, v, failing)
+                    if tag not in got and raises:
+                        raising.clear()
+                        del fired[:]
+                        try:
+                            r.routeMessage(m)
+                        except BaseException:
+                            pass
+                        if tag in [t for t, _ in fired]:
+                            bad = ('callback-exception-stops-routing',
+                                   'a raising callback prevented the matching registration #%d from being invoked '
+                                   '(it is invoked when no callback raises)' % tag)
+                if bad is not None:
+                    ctx.violation(bad[0] or 'invoked-set-differs', bad[1] or 'invoked set differs', inp=inp,
+                                  observed=sorted(set(got)), expected=sorted(expected))
+                else:
+                    ctx.stat('history-route:ok')
     finally:
         router.log = saved
     out = ctx.model(lines)
@@ -886,6 +920,7 @@ def run_history(ctx, ops, inp_extra=None):
     ctx.stat('history-len:%d' % (len(ops) // 5 * 5))
     if out is not None:
         for i, (a, b) in enumerate(zip(out, impl)):
+            a = canon_inv(a)
             if a != b:
                 # logging differences alone are tolerated (see stream_pairs)
                 if a.startswith('inv=') and b.startswith('inv=') and a.split(' ')[0] == b.split(' ')[0] \
@@ -920,54 +955,106 @@ def gen_client_history(rng, n_ops):
 
 
 def text_constraints(kw):
-    """The constraints a rule text must express for the addMatch arguments kw (client naming already
-    mapped to router naming): dict text-key -> value."""
-    exp = {}
+    """The constraints a rule text must express for the addMatch arguments kw: sorted list of
+    (text key, value) - the order of the items in a rule text carries no meaning."""
+    exp = []
     names = {'mtype': 'type', 'sender': 'sender', 'interface': 'interface', 'member': 'member', 'path': 'path',
              'path_namespace': 'path_namespace', 'destination': 'destination', 'arg0namespace': 'arg0namespace'}
     for k, tk in names.items():
         if kw.get(k) is not None:
-            exp[tk] = kw[k]
+            exp.append((tk, kw[k]))
     for i, v in (kw.get('args') or []):
-        exp['arg%d' % i] = v
+        exp.append(('arg%d' % i, v))
     for i, v in (kw.get('arg_paths') or []):
-        exp['arg%dpath' % i] = v
-    return exp
+        exp.append(('arg%dpath' % i, v))
+    return sorted(exp)
 
 
-def parse_text_independent(text):
-    """Match-rule text per the DBus specification restricted to unescaped values: key='value' items
-    separated by commas.  Returns dict or None when the text is not of that form."""
-    out = {}
-    if text == '':
-        return out
+def spec_parse_rule(text):
+    """Match-rule text as the DBus specification defines it ("Match Rules": comma-separated key=value pairs;
+    an apostrophe starts / ends a quoted stretch in which every other character is literal; outside quotes
+    a backslash followed by an apostrophe is a literal apostrophe and a comma ends the value).  Written
+    from the specification, independent of txdbus.  Returns the list of (key, value), or None when the
+    text is not a rule (an item without '=', an unterminated quote)."""
+    out = []
     i, n = 0, len(text)
+    if n == 0:
+        return out
     while True:
-        j = text.find("='", i)
+        j = text.find('=', i)
         if j < 0:
             return None
         key = text[i:j]
-        k = text.find("'", j + 2)
-        if k < 0:
+        if ',' in key or "'" in key:
             return None
-        out[key] = text[j + 2:k]
-        if k + 1 == n:
+        i = j + 1
+        val, quoted = [], False
+        while i < n:
+            ch = text[i]
+            if quoted:
+                if ch == "'":
+                    quoted = False
+                else:
+                    val.append(ch)
+            elif ch == "'":
+                quoted = True
+            elif ch == ',':
+                break
+            elif ch == '\\' and i + 1 < n and text[i + 1] == "'":
+                val.append("'")
+                i += 1
+            else:
+                val.append(ch)
+            i += 1
+        if quoted:
+            return None
+        out.append((key, ''.join(val)))
+        if i >= n:
             return out
-        if text[k + 1] != ',':
-            return None
-        i = k + 2
+        i += 1          # the comma; another item must follow
+
+
+def canon_text(text):
+    """A rule text up to the order of its items (raw when it is not a rule)."""
+    p = spec_parse_rule(text)
+    if p is None:
+        return 'raw:' + hx(text)
+    return 'rule:' + ';'.join('%s=%s' % (hx(k), hx(v)) for k, v in sorted(p))
 
 
 def text_judgeable(kw):
+    """The rule-text clause is judged for rules whose matching is judged (no empty constraint value among the
+    simple keys) and whose values need no escaping (no apostrophe, no backslash)."""
+    for k in ('mtype', 'interface', 'member', 'path', 'destination', 'path_namespace', 'sender', 'arg0namespace'):
+        if kw.get(k) == '':
+            return False
     vals = [v for k, v in kw.items() if isinstance(v, str)]
     for k in ('args', 'arg_paths'):
         vals += [s for _, s in (kw.get(k) or [])]
-    keys = text_constraints(kw)
-    n_items = len([1 for k in kw if isinstance(kw.get(k), str)]) + len(kw.get('args') or []) + len(kw.get('arg_paths') or [])
-    return all(c not in v for v in vals for c in "',=\\") and len(keys) == n_items
+    return all(c not in v for v in vals for c in "'\\")
+
+
+def judge_text(ctx, kw, text):
+    """'The rule text sent to the bus daemon expresses the same constraints': read the text with the
+    specification's grammar and compare the constraints (as a multiset)."""
+    if not text_judgeable(kw):
+        ctx.stat('rule-text:not-judged(empty value, apostrophe or backslash)')
+        return
+    got = spec_parse_rule(text)
+    want = text_constraints(kw)
+    if got is None or sorted(got) != want:
+        ctx.violation('rule-text-differs', 'the AddMatch text does not express the constraints of the rule: %r' % (text,),
+                      inp={'stream': 'rule-text', 'rule': clean_kw(kw)}, observed=text, expected=[list(x) for x in want])
+    else:
+        ctx.stat('rule-text:ok')
 
 
 def run_client_history(ctx, ops):
+    """One history on a real DBusClientConnection.  Oracle, by registration (tag = order of the addMatch
+    call): a registration is judged only while it is *settled* - acknowledged and no removal requested
+    ('live': invoked iff the signal matches) or removal acknowledged ('removed': never invoked).  Between a
+    request and its acknowledgement, after an error reply, and for ids the oracle cannot attribute, nothing
+    is demanded: the statement does not fix the moment at which a registration or a removal takes effect."""
     from txdbus import message, router
     spy = LogSpy()
     saved = router.log
@@ -976,27 +1063,24 @@ def run_client_history(ctx, ops):
     lines, impl = ['reset'], ['ok']
     try:
         c, t = make_connection()
-        calls = []            # k-th AddMatch/RemoveMatch call: dict(serial, kind, ...)
+        calls = []            # k-th AddMatch/RemoveMatch call: dict(serial, kind, tag, answered)
         results = {}          # k -> outcome string, filled by Deferred callbacks
         fired = []
         raising = set()
-        live = {}             # oracle registry: id -> (kw, cb, text)
-
-        class Boom(Exception):
-            pass
+        reg = {}              # tag -> dict(kw, cb, text, state, id)
+        id_to_tag = {}
 
         def make_cb(cb, tag):
             def f(m):
                 fired.append((tag, cb))
                 if cb in raising:
-                    raise Boom()
+                    raise_for(cb)
             return f
-        tag_of_call, id_of_tag = {}, {}
         for op in ops:
             if op[0] == 'cadd':
                 _, cb, kw = op
                 k = len(calls)
-                tag = k
+                tag = len(reg)
                 ckw = call_kw(kw)
                 if 'args' in ckw:
                     ckw['arg'] = ckw.pop('args')
@@ -1006,26 +1090,17 @@ def run_client_history(ctx, ops):
                 sent = [x for x in drain_calls(t)]
                 assert len(sent) == 1 and sent[0][0] == 'AddMatch', sent
                 text = sent[0][1][0]
-                calls.append({'serial': sent[0][2], 'kind': 'add', 'kw': kw, 'cb': cb, 'text': text, 'tag': tag})
+                calls.append({'serial': sent[0][2], 'kind': 'add', 'tag': tag, 'answered': False})
+                reg[tag] = {'kw': kw, 'cb': cb, 'text': text, 'state': 'pending-add', 'id': None}
                 d.addCallbacks(lambda rid, k=k: results.__setitem__(k, 'adddone %d' % rid),
                                lambda f, k=k: results.__setitem__(k, 'failed'))
-                impl.append('sentadd ' + hx(text))
+                impl.append('sentadd ' + canon_text(text))
                 lines.append('cadd %d %s' % (cb, enc_rule(kw)))
-                # ---- oracle: the text expresses the same constraints
                 m0 = sent[0][3]
                 if (m0.path, m0.interface, m0.destination, m0.signature) != \
                         ('/org/freedesktop/DBus', 'org.freedesktop.DBus', 'org.freedesktop.DBus', 's'):
-                    ctx.violation('addmatch-call-misaddressed', 'AddMatch is not addressed to the bus driver', inp=inp,
-                                  observed=[m0.path, m0.interface, m0.destination, m0.signature])
-                if text_judgeable(kw):
-                    got = parse_text_independent(text)
-                    if got != text_constraints(kw):
-                        ctx.violation('rule-text-differs', 'the AddMatch text does not express the constraints of the rule',
-                                      inp={'stream': 'rule-text', 'rule': kw}, observed=text, expected=text_constraints(kw))
-                    else:
-                        ctx.stat('rule-text:ok')
-                else:
-                    ctx.stat('rule-text:not-judged(quote/comma/equals or duplicate index)')
+                    ctx.stat('addmatch-call-addressing-unusual')     # engineering check, not a property demand
+                judge_text(ctx, kw, text)
             elif op[0] == 'cdel':
                 rid = op[1]
                 k = len(calls)
@@ -1036,16 +1111,20 @@ def run_client_history(ctx, ops):
                     lines.append('cdel %d' % rid)
                     continue
                 sent = drain_calls(t)
-                assert len(sent) == 1 and sent[0][0] == 'RemoveMatch', sent
+                lines.append('cdel %d' % rid)
+                if len(sent) != 1 or sent[0][0] != 'RemoveMatch':
+                    impl.append('sent %r' % ([x[0] for x in sent],))
+                    continue
                 text = sent[0][1][0]
-                calls.append({'serial': sent[0][2], 'kind': 'del', 'id': rid})
+                tag = id_to_tag.get(rid)
+                calls.append({'serial': sent[0][2], 'kind': 'del', 'tag': tag, 'answered': False})
                 d.addCallbacks(lambda _, k=k: results.__setitem__(k, 'deldone'),
                                lambda f, k=k: results.__setitem__(k, 'delfailed' if f.check(KeyError) else 'failed'))
-                impl.append('sentremove ' + hx(text))
-                lines.append('cdel %d' % rid)
-                if rid in live and live[rid][2] != text:
-                    ctx.violation('removematch-text-differs', 'RemoveMatch carries a different text than AddMatch did',
-                                  inp=inp, observed=text, expected=live[rid][2])
+                impl.append('sentremove ' + canon_text(text))
+                if tag is not None:
+                    if reg[tag]['state'] == 'live':
+                        reg[tag]['state'] = 'removing'
+                    ctx.stat('removematch-text:%s' % ('same-as-addmatch' if reg[tag]['text'] == text else 'differs'))
             elif op[0] in ('cok', 'cerr'):
                 k = op[1]
                 lines.append('%s %d' % (op[0], k))
@@ -1062,14 +1141,25 @@ def run_client_history(ctx, ops):
                 c.dataReceived(reply.rawMessage)
                 res = results.get(k, 'ignored')
                 impl.append(res)
-                if res.startswith('adddone'):
-                    rid = int(res.split()[1])
-                    id_of_tag[call['tag']] = rid
-                    if rid in live or any(rid == x for x in id_of_tag.values() if x is not rid and False):
-                        ctx.violation('rule-id-reused', 'addMatch returned the live id %d again' % rid, inp=inp)
-                    live[rid] = (call['kw'], call['cb'], call['text'])
-                elif res == 'deldone':
-                    live.pop(call['id'], None)
+                if call['answered']:
+                    continue
+                call['answered'] = True
+                tag = call['tag']
+                if call['kind'] == 'add':
+                    g = reg[tag]
+                    if op[0] == 'cok' and res.startswith('adddone'):
+                        g['state'] = 'live'
+                        g['id'] = int(res.split()[1])
+                        id_to_tag[g['id']] = tag
+                    else:
+                        g['state'] = 'unsettled'         # refused by the daemon, or the client reported a failure
+                elif tag is not None:
+                    g = reg[tag]
+                    if op[0] == 'cok' and g['state'] == 'removing':
+                        g['state'] = 'removed'
+                        if id_to_tag.get(g['id']) == tag:
+                            del id_to_tag[g['id']]
+                    # error reply to RemoveMatch: stays 'removing' - not judged any more
             else:
                 _, raises, spec = op
                 m = build_message(spec, parse=False)
@@ -1083,47 +1173,55 @@ def run_client_history(ctx, ops):
                     c.dataReceived(m.rawMessage)
                 except BaseException as e:      # Twisted would drop the connection ("lost by the reactor")
                     escaped = repr(e)
-                inv = [(id_of_tag.get(tag, -1), cb) for tag, cb in fired]
-                impl.append('inv=%s log=%d' % (','.join('%d:%d' % ic for ic in inv) or '.', spy.n - n0)
-                            + (' escaped' if escaped else ''))
+                inv = [(reg[tag]['id'] if reg[tag]['id'] is not None else -1, cb) for tag, cb in fired]
+                impl.append(canon_inv('inv=%s log=%d' % (','.join('%d:%d' % ic for ic in inv) or '.', spy.n - n0)
+                                      + (' escaped' if escaped else '')))
                 if escaped:
                     ctx.violation('exception-escapes-routing', 'an exception raised by a signal callback escapes '
                                   'dataReceived (%s): the connection is lost and later callbacks are not invoked' % escaped,
                                   inp=inp, observed=escaped, expected='no exception')
                 lines.append('csig %s %s' % (enc_raises(raises), enc_msg(mv)))
                 ctx.impl_trace()
-                expected, undecided = [], set()
-                for rid, (kw, cb, _) in live.items():
-                    v, _f = oracle_matches(kw, mv)
-                    if v is None:
-                        undecided.add(rid)
-                    elif v:
-                        expected.append(rid)
-                got = [rid for rid, _ in inv if rid not in undecided]
-                if sorted(got) != sorted(expected):
-                    wrong = sorted(set(got) ^ set(expected)) or sorted(got)
-                    rid = wrong[0]
-                    if rid not in live:
-                        key, what = 'removed-rule-invoked', 'rule %d is not registered (removed or never acknowledged) and is invoked' % rid
-                    elif got.count(rid) > 1:
-                        key, what = 'invoked-twice', 'rule %d invoked %d times' % (rid, got.count(rid))
+                expected, judged = set(), set()
+                for tag, g in reg.items():
+                    if g['state'] == 'live':
+                        v, _f = oracle_matches(g['kw'], mv)
+                        if v is None:
+                            continue
+                        judged.add(tag)
+                        if v:
+                            expected.add(tag)
+                    elif g['state'] == 'removed':
+                        judged.add(tag)
                     else:
-                        kw = live[rid][0]
-                        v, failing = oracle_matches(kw, mv)
-                        key, what = explain(kw, build_message(spec), mv, rid in got, v, failing)
-                        if rid not in got and raises:
-                            raising.clear()
-                            del fired[:]
-                            try:
-                                c.dataReceived(m.rawMessage)
-                            except BaseException:
-                                pass
-                            if rid in [id_of_tag.get(tag, -1) for tag, _ in fired]:
-                                key, what = ('callback-exception-stops-routing',
-                                             'a raising callback prevented the matching rule %d from being invoked '
-                                             '(it is invoked when no callback raises)' % rid)
-                    ctx.violation(key or 'invoked-set-differs', what or 'invoked set differs', inp=inp,
-                                  observed=sorted(got), expected=sorted(expected))
+                        ctx.stat('client-signal:registration-in-window-not-judged')
+                got = [tag for tag, _ in fired if tag in judged]
+                bad = None
+                for tag in sorted(set(got)):
+                    if got.count(tag) > 1:
+                        bad = ('invoked-twice', 'registration #%d invoked %d times' % (tag, got.count(tag)))
+                    elif reg[tag]['state'] == 'removed':
+                        bad = ('removed-rule-invoked', 'registration #%d (id %s): its removal was acknowledged and it '
+                               'is invoked again' % (tag, reg[tag]['id']))
+                if bad is None and set(got) != expected:
+                    tag = sorted(set(got) ^ expected)[0]
+                    kw = reg[tag]['kw']
+                    v, failing = oracle_matches(kw, mv)
+                    bad = explain(kw, build_message(spec), mv, tag in got, v, failing)
+                    if tag not in got and raises:
+                        raising.clear()
+                        del fired[:]
+                        try:
+                            c.dataReceived(m.rawMessage)
+                        except BaseException:
+                            pass
+                        if tag in [t_ for t_, _ in fired]:
+                            bad = ('callback-exception-stops-routing',
+                                   'a raising callback prevented the matching registration #%d from being invoked '
+                                   '(it is invoked when no callback raises)' % tag)
+                if bad is not None:
+                    ctx.violation(bad[0] or 'invoked-set-differs', bad[1] or 'invoked set differs', inp=inp,
+                                  observed=sorted(set(got)), expected=sorted(expected))
                 else:
                     ctx.stat('client-signal:ok')
     finally:
@@ -1132,6 +1230,10 @@ def run_client_history(ctx, ops):
     ctx.case('client-histories', sample=inp)
     if out is not None:
         for i, (a, b) in enumerate(zip(out, impl)):
+            a = canon_inv(a)
+            if a.startswith('sentadd ') or a.startswith('sentremove '):
+                w, tx = a.split(' ', 1)
+                a = w + ' ' + canon_text(unhx(tx))
             if a != b:
                 if a.startswith('inv=') and b.startswith('inv=') and a.split(' ')[0] == b.split(' ')[0] \
                         and 'escaped' not in b:
@@ -1208,7 +1310,7 @@ def stream_text(ctx, rules, malformed):
             impl_parse = canon_bus_kwargs(bkw) if status == 'ok' else status
             ctx.stat('rule-text:bus-%s' % status)
             if out is not None:
-                if out[2 * i] != hx(text):
+                if canon_text(unhx(out[2 * i])) != canon_text(text):
                     ctx.disagree('rule-text', inp, unhx(out[2 * i]), text)
                 if out[2 * i + 1] != impl_parse:
                     ctx.disagree('rule-text', inp, out[2 * i + 1], impl_parse, detail='bus parse of the client text')
@@ -1235,7 +1337,7 @@ def stream_text(ctx, rules, malformed):
                 if text == '':
                     ctx.stat('bus-rejects-empty-rule')
                 elif text_judgeable(kw):
-                    ctx.note('bus rejects the client text %r with %s' % (text, status))
+                    ctx.stat('bus-rejects-valid-client-text(comma or equals inside a value)')
         # ---- malformed / arbitrary texts
         lines, obs = [], []
         for text in malformed:
@@ -1280,102 +1382,239 @@ def gen_malformed(rng):
     return ','.join(items)
 
 
-def stream_proxy(ctx, n):
+PROXY_SIGS = ['', 's', 'ss', 'i', 'so', 'as', 'o']
+PROXY_BODY = {'': None, 's': ['x'], 'ss': ['x', 'y'], 'i': [5], 'so': ['x', '/a'], 'as': [['x']], 'o': ['/a/b']}
+
+
+def gen_proxy_scenario(rng):
+    """Interfaces (several may declare the same signal name with different signatures), subscriptions
+    (with and without interface=), signals around them, then cancellations in any order (also twice, also
+    an id that was never handed out)."""
+    names = ['a.b', 'a.bc', 'org.x.Y']
+    rng.shuffle(names)
+    ifaces = []
+    for nm in names[:rng.choice([1, 2, 2, 3])]:
+        sigs = {}
+        for sn in ['M', 'N', 'K']:
+            if rng.random() < 0.7:
+                sigs[sn] = rng.choice(PROXY_SIGS)
+        ifaces.append([nm, sigs])
+    subs = []
+    for _ in range(rng.choice([1, 2, 2, 3])):
+        subs.append([rng.choice(['M', 'M', 'N', 'K', 'Z']),
+                     rng.choice([None, None, ''] + [i[0] for i in ifaces] + ['no.such'])])
+    signals = []
+    for _ in range(5):
+        sn = rng.choice(['M', 'M', 'N', 'K'])
+        decls = [i[1][sn] for i in ifaces if sn in i[1]]
+        sig = rng.choice(decls) if decls and rng.random() < 0.6 else rng.choice(PROXY_SIGS)
+        signals.append(SIG(path=rng.choice(['/a/b', '/a/b', '/a/b', '/a/bc']), member=sn,
+                           interface=rng.choice([i[0] for i in ifaces] + ['a.b']),
+                           signature=sig or None, body=PROXY_BODY[sig]))
+    order = list(range(len(subs)))
+    rng.shuffle(order)
+    cancels = []
+    for i in order:
+        cancels.append(i)
+        if rng.random() < 0.3:
+            cancels.append(i)            # cancel twice
+        if rng.random() < 0.15:
+            cancels.append(-1)           # an id never handed out
+    return {'stream': 'proxy-gate', 'ifaces': ifaces, 'subs': subs, 'signals': signals, 'cancels': cancels}
+
+
+def enc_ifaces(ifaces):
+    """name:sig=decl;sig=decl|name:..."""
+    if not ifaces:
+        return '.'
+    return '|'.join('%s:%s' % (hx(nm), ';'.join('%s=%s' % (hx(k), hx(v)) for k, v in sigs.items()) or '.')
+                    for nm, sigs in ifaces)
+
+
+def oracle_select(ifaces, name, requested):
+    """Which declaration a subscription refers to: ('none',) when no interface (of the requested name, if one
+    is requested) declares the signal; ('one', iface, decl) when the statement determines it; ('ambiguous',)
+    when no interface was requested and several declare the name (the statement does not say which)."""
+    cands = [(nm, sigs[name]) for nm, sigs in ifaces if name in sigs and (not requested or nm == requested)]
+    if not cands:
+        return ('none',)
+    if len(cands) > 1 and len(set(cands)) > 1:
+        return ('ambiguous',)
+    return ('one', cands[0][0], cands[0][1])
+
+
+def run_proxy_scenario(ctx, sc):
+    from txdbus import objects, interface, message
+    c, t = make_connection()
+    ifs = [interface.DBusInterface(nm, *[interface.Signal(k, v) for k, v in sigs.items()]) for nm, sigs in sc['ifaces']]
+    ro = objects.RemoteDBusObject(c.objHandler, 'x.y', '/a/b', ifs)
+    lines, impl = ['preset'], ['ok']
+    subs = []          # per subscription: dict(name, requested, got, rid, rule, sel)
+    for name, requested in sc['subs']:
+        got = []
+        sub = {'name': name, 'requested': requested, 'got': got, 'rid': None, 'rule': None,
+               'sel': oracle_select(sc['ifaces'], name, requested), 'state': 'none'}
+        subs.append(sub)
+        lines.append('select %s %s %s' % (hx(name), enc_opt(requested), enc_ifaces(sc['ifaces'])))
+        try:
+            d = ro.notifyOnSignal(name, (lambda g: (lambda *a: g.append(list(a))))(got), interface=requested)
+        except AttributeError:
+            impl.append('none')
+            continue
+        rids = []
+        d.addCallback(rids.append)
+        sent = drain_calls(t)
+        assert len(sent) == 1 and sent[0][0] == 'AddMatch', sent
+        text = sent[0][1][0]
+        parsed = dict(spec_parse_rule(text) or [])
+        sub['rule'] = parsed
+        c.dataReceived(message.MethodReturnMessage(sent[0][2], destination=':1.7').rawMessage)
+        sub['rid'] = rids[0] if rids else None
+        sub['state'] = 'live'
+        # the implementation's selection, read off the rule it registered and the gate it applies
+        impl.append('%s' % hx(parsed.get('interface', '?')))
+        lines.append('psub %d' % (sub['rid'] if sub['rid'] is not None else 999))
+        impl.append('ok')
+        if sub['sel'][0] == 'none':
+            ctx.violation('proxy-subscribes-undeclared-signal', 'notifyOnSignal(%r, interface=%r) succeeded although no '
+                          'such signal is declared' % (name, requested), inp=sc, observed=text, expected='AttributeError')
+        elif sub['sel'][0] == 'one':
+            want = {'type': 'signal', 'path': '/a/b', 'member': name, 'interface': sub['sel'][1]}
+            if parsed != want:
+                ctx.violation('proxy-rule-differs', 'notifyOnSignal(%r, interface=%r) registered %r' % (name, requested, text),
+                              inp=sc, observed=parsed, expected=want)
+    for s_ in subs:
+        if s_['state'] == 'none' and s_['sel'][0] == 'one':
+            ctx.violation('proxy-declared-signal-refused', 'notifyOnSignal(%r, interface=%r) raised although %s declares it'
+                          % (s_['name'], s_['requested'], s_['sel'][1]), inp=sc, observed='AttributeError', expected='subscription')
+
+    def fire(spec, where):
+        for s_ in subs:
+            del s_['got'][:]
+        c.dataReceived(build_message(spec, parse=False).rawMessage)
+        mv = view(build_message(spec))
+        for i, s_ in enumerate(subs):
+            calls = [list(x) for x in s_['got']]
+            if s_['state'] == 'none':
+                continue
+            ctx.case('proxy-gate', sample=None)
+            ctx.impl_trace()
+            # model: rule as the implementation registered it x gate with the model's selected declaration
+            lines.append('match %s %s' % (enc_rule({'mtype': s_['rule'].get('type'), 'path': s_['rule'].get('path'),
+                                                     'member': s_['rule'].get('member'),
+                                                     'interface': s_['rule'].get('interface')}), enc_msg(mv)))
+            lines.append('gatesel %d %s %s' % (i, enc_opt(spec['signature']), enc_body(mv['body'])))
+            impl.append('-')          # compared below through s_['obs']
+            impl.append('-')
+            s_.setdefault('obs', []).append((len(lines) - 2, calls, s_['state']))
+            # ---- oracle
+            if s_['state'] == 'removed':
+                if calls:
+                    ctx.violation('removed-rule-invoked', 'a cancelled signal subscription still fires (%s)' % where,
+                                  inp=sc, observed=calls, expected=[])
+                else:
+                    ctx.stat('proxy:cancelled-silent')
+                continue
+            if s_['sel'][0] != 'one':
+                ctx.stat('proxy:declaration-ambiguous-not-judged')
+                continue
+            _, ifname, decl = s_['sel']
+            addressed = (spec['path'] == '/a/b' and spec['member'] == s_['name'] and spec['interface'] == ifname)
+            same_sig = (spec['signature'] or '') == (decl or '')
+            want = addressed and same_sig
+            ctx.stat('proxy:%s' % ('deliver' if want else ('wrong-signature' if addressed else 'other-signal')))
+            if bool(calls) != want or len(calls) > 1:
+                if not addressed:
+                    key = 'proxy-wrong-signal-delivered'
+                elif want and not calls:
+                    key = 'proxy-matching-signal-not-delivered'
+                elif len(calls) > 1:
+                    key = 'invoked-twice'
+                else:
+                    key = 'proxy-signature-gate'
+                ctx.violation(key, 'subscription %s(%r) of %s: callback %s for a signal %s.%s on %s with signature %r'
+                              % (s_['name'], decl, ifname, 'called' if calls else 'not called', spec['interface'],
+                                 spec['member'], spec['path'], spec['signature']),
+                              inp=sc, observed=calls, expected='called once with the body' if want else 'not called')
+            elif calls and calls[0] != list(spec['body'] or []):
+                ctx.violation('proxy-arguments-differ', 'the callback did not receive the signal arguments', inp=sc,
+                              observed=calls[0], expected=spec['body'])
+
+    for spec in sc['signals']:
+        fire(spec, 'before any cancel')
+    if len([s_ for s_ in subs if s_['state'] == 'live']) > 1:
+        ctx.stat('proxy:several-subscriptions')
+    for ci in sc['cancels']:
+        rid = subs[ci]['rid'] if ci >= 0 else 777
+        if rid is None:
+            continue
+        ro.cancelSignalNotification(rid)
+        sent = drain_calls(t)
+        lines.append('pcancel %d' % rid)
+        impl.append('del %d' % rid if [x[0] for x in sent] == ['RemoveMatch'] else ('noop' if not sent else 'sent %r' % [x[0] for x in sent]))
+        for x in sent:
+            c.dataReceived(message.MethodReturnMessage(x[2], destination=':1.7').rawMessage)
+        if ci >= 0 and subs[ci]['state'] == 'live':
+            if [x[0] for x in sent] == ['RemoveMatch']:
+                subs[ci]['state'] = 'removed'
+            else:
+                subs[ci]['state'] = 'unsettled'
+                ctx.stat('proxy:cancel-sent-no-removematch')      # engineering observation, not a property demand
+        # after the acknowledgement: cancelled subscriptions are silent, the others still deliver
+        for s_ in subs:
+            if s_['sel'][0] == 'one' and s_['state'] in ('live', 'removed'):
+                _, ifname, decl = s_['sel']
+                fire(SIG(member=s_['name'], interface=ifname, signature=decl or None, body=PROXY_BODY[decl]),
+                     'after cancelling %r' % (sc['cancels'],))
+    return lines, impl, subs
+
+
+def stream_proxy(ctx, scenarios):
     """Real RemoteDBusObject.notifyOnSignal / cancelSignalNotification on a real connection."""
-    from txdbus import objects, interface, message, router
+    from txdbus import router
     saved = router.log
     router.log = LogSpy()
-    rng = ctx.rng
-    declared_pool = ['', 's', 'ss', 'i', 'so', 'as', 'o']
     try:
-        lines, obs = [], []
-        for _ in range(n):
-            c, t = make_connection()
-            decl = rng.choice(declared_pool)
-            iface = interface.DBusInterface('a.b', interface.Signal('M', decl), interface.Signal('N', 's'))
-            ro = objects.RemoteDBusObject(c.objHandler, 'x.y', '/a/b', [iface])
-            got = []
-            d = ro.notifyOnSignal('M', lambda *a: got.append(list(a)))
-            rids = []
-            d.addCallback(rids.append)
-            sent = drain_calls(t)
-            assert sent[0][0] == 'AddMatch'
-            c.dataReceived(message.MethodReturnMessage(sent[0][2], destination=':1.7').rawMessage)
-            steps = []
-            for _ in range(4):
-                # a signal near the subscription: same or different signature / path / member / interface
-                sig, body = rng.choice([(None, None), ('s', ['x']), ('ss', ['x', 'y']), ('i', [5]), ('so', ['x', '/a']),
-                                        ('as', [['x']]), ('o', ['/a/b']), ('s', [''])])
-                if rng.random() < 0.5 and decl:
-                    sig = decl
-                    body = {'s': ['x'], 'ss': ['x', 'y'], 'i': [5], 'so': ['x', '/a'], 'as': [['x']], 'o': ['/a/b']}[decl]
-                spec = SIG(path=rng.choice(['/a/b', '/a/b', '/a/b', '/a/bc']), member=rng.choice(['M', 'M', 'M', 'N']),
-                           interface=rng.choice(['a.b', 'a.b', 'a.b', 'a.bc']), signature=sig, body=body)
-                del got[:]
-                c.dataReceived(build_message(spec, parse=False).rawMessage)
-                steps.append((spec, [list(x) for x in got]))
-            # cancel, acknowledge, then the same matching signal must not be delivered any more
-            ro.cancelSignalNotification(rids[0])
-            sent = drain_calls(t)
-            cancel_sent = [s[0] for s in sent]
-            if sent:
-                c.dataReceived(message.MethodReturnMessage(sent[0][2], destination=':1.7').rawMessage)
-            body_ok = {'': None, 's': ['x'], 'ss': ['x', 'y'], 'i': [5], 'so': ['x', '/a'], 'as': [['x']], 'o': ['/a/b']}[decl]
-            spec = SIG(signature=decl or None, body=body_ok)
-            del got[:]
-            c.dataReceived(build_message(spec, parse=False).rawMessage)
-            after = [list(x) for x in got]
-            obs.append((decl, steps, cancel_sent, after, rids))
-            for spec, calls in steps:
-                mv = view(build_message(spec))
-                kw = {'mtype': 'signal', 'path': '/a/b', 'member': 'M', 'interface': 'a.b'}
-                lines.append('match ' + enc_rule(kw) + ' ' + enc_msg(mv))
-                lines.append('gate %s %s %s' % (enc_opt(decl), enc_opt(spec['signature']), enc_body(mv['body'])))
-        out = ctx.model(lines)
-        li = 0
-        for decl, steps, cancel_sent, after, rids in obs:
-            for spec, calls in steps:
-                inp = {'stream': 'proxy-gate', 'declared': decl, 'signal': spec}
-                ctx.case('proxy-gate', sample=inp)
-                ctx.impl_trace()
-                mv = view(build_message(spec))
-                # implementation result canonicalised like the model's: none | call <body>
-                if not calls:
-                    impl = 'none'
-                else:
-                    impl = 'call ' + enc_body([['str', a, None] if isinstance(a, str) else ['other', None, None] for a in calls[0]])
-                if out is not None:
-                    m_match, m_gate = out[li], out[li + 1]
-                    model = m_gate if m_match == 'call' else 'none'
-                    if model != impl or len(calls) > 1:
-                        ctx.disagree('proxy-gate', inp, model, impl)
-                li += 2
-                # ---- oracle
-                addressed = (spec['path'] == '/a/b' and spec['member'] == 'M' and spec['interface'] == 'a.b')
-                same_sig = (spec['signature'] or '') == (decl or '')
-                want = addressed and same_sig
-                ctx.stat('proxy:%s' % ('deliver' if want else ('wrong-signature' if addressed else 'other-signal')))
-                if bool(calls) != want or len(calls) > 1:
-                    if not addressed:
-                        key = 'proxy-wrong-signal-delivered'
-                    elif want and not calls:
-                        key = 'proxy-matching-signal-not-delivered'
-                    elif len(calls) > 1:
-                        key = 'invoked-twice'
+        runs = []
+        all_lines = []
+        for sc in scenarios:
+            lines, impl, subs = run_proxy_scenario(ctx, sc)
+            runs.append((sc, lines, impl, subs, len(all_lines)))
+            all_lines += lines
+        out = ctx.model(all_lines)
+        if out is None:
+            return
+        for sc, lines, impl, subs, off in runs:
+            mo = out[off:off + len(lines)]
+            done = False
+            for i, ln in enumerate(lines):
+                if done:
+                    break
+                w = ln.split(' ')[0]
+                if w == 'select':
+                    # model: 'none' | '<iface> <declared>' ; implementation: 'none' | '<iface>'
+                    if mo[i].split(' ')[0] != impl[i]:
+                        ctx.disagree('proxy-gate', sc, {'line': ln, 'out': mo[i]}, impl[i], detail='interface selection')
+                        done = True
+                elif w in ('psub', 'pcancel', 'preset'):
+                    if mo[i] != impl[i]:
+                        ctx.disagree('proxy-gate', sc, {'line': ln, 'out': mo[i]}, impl[i], detail='cancelSignalNotification')
+                        done = True
+            for s_ in subs:
+                for (li, calls, state) in s_.get('obs', []):
+                    m_match, m_gate = mo[li], mo[li + 1]
+                    if state == 'removed':
+                        model = 'none'
                     else:
-                        key = 'proxy-signature-gate'
-                    ctx.violation(key, 'proxy subscription for signal M(%r): callback %s for a signal with signature %r'
-                                  % (decl, 'called' if calls else 'not called', spec['signature']), inp=inp,
-                                  observed=calls, expected='called once with the body' if want else 'not called')
-                elif calls and calls[0] != list(spec['body'] or []):
-                    ctx.violation('proxy-arguments-differ', 'the callback did not receive the signal arguments', inp=inp,
-                                  observed=calls[0], expected=spec['body'])
-            if cancel_sent != ['RemoveMatch']:
-                ctx.violation('proxy-cancel-sends-no-removematch', 'cancelSignalNotification did not send RemoveMatch',
-                              inp={'stream': 'proxy-gate', 'declared': decl}, observed=cancel_sent, expected=['RemoveMatch'])
-            if after:
-                ctx.violation('removed-rule-invoked', 'a cancelled signal subscription still fires',
-                              inp={'stream': 'proxy-gate', 'declared': decl, 'after-cancel': True}, observed=after, expected=[])
+                        model = m_gate if m_match == 'call' else 'none'
+                    if not calls:
+                        got = 'none'
+                    else:
+                        got = 'call ' + enc_body([['str', a, None] if isinstance(a, str) else ['other', None, None]
+                                                  for a in calls[0]])
+                    if model != got or len(calls) > 1:
+                        ctx.disagree('proxy-gate', sc, {'line': lines[li] + ' / ' + lines[li + 1], 'out': model}, got)
+                        break
     finally:
         router.log = saved
 
@@ -1441,7 +1680,7 @@ def run_corpus_case(ctx, case):
     elif s == 'bus-parse':
         stream_text(ctx, [], [case['text']])
     elif s == 'proxy-gate':
-        stream_proxy(ctx, 3)
+        stream_proxy(ctx, [case])
 
 
 def run(ctx):
@@ -1507,7 +1746,7 @@ def run(ctx):
                 [gen_malformed(rng) for _ in range(ctx.scale(quick=1000, thorough=10000))]
     stream_text(ctx, rules, malformed)
 
-    stream_proxy(ctx, ctx.scale(quick=100, thorough=1000))
+    stream_proxy(ctx, [gen_proxy_scenario(rng) for _ in range(ctx.scale(quick=120, thorough=1200))])
 
     probe_internal_reentrancy(ctx)
     probe_apostrophe(ctx)
